@@ -149,7 +149,8 @@ theorem empty_EWF (w : Nat) : ({ pruned := w } : Idx).EWF :=
 
 theorem openStore_ok (d : Disk) (g : GarbageOnlyLast d.files) :
     openStore d = .ok ({ nextWAL := nextNum (clearLastGarbage d.files),
-                         idx := replayFiles { pruned := d.wm.getD 0 } (clearLastGarbage d.files) },
+                         idx := replayFiles { pruned := d.wm.getD 0 } (clearLastGarbage d.files),
+                         known := (clearLastGarbage d.files).map (·.num) },
                        { d with files := clearLastGarbage d.files }) := by
   unfold openStore
   simp [clearLastGarbage_clean d.files g]
